@@ -77,6 +77,29 @@ impl Bench {
         drive_fut(&self.sh, fut, Some(conn), true)
     }
 
+    /// Run a future whose next transport write never completes: the application drops it at that point (`None`).
+    /// `Some` if it finished without writing.
+    pub fn run_dropped_at_next_write<F: Future>(&self, fut: F) -> Option<F::Output> {
+        use std::task::{Context, Poll, RawWaker, RawWakerVTable, Waker};
+        fn clone(_: *const ()) -> RawWaker {
+            RawWaker::new(std::ptr::null(), &VTABLE)
+        }
+        fn noop(_: *const ()) {}
+        static VTABLE: RawWakerVTable = RawWakerVTable::new(clone, noop, noop, noop);
+        let waker = unsafe { Waker::from_raw(RawWaker::new(std::ptr::null(), &VTABLE)) };
+        let mut cx = Context::from_waker(&waker);
+        let mut fut = std::pin::pin!(fut);
+        self.sh.borrow_mut().op_calls = 0;
+        self.sh.borrow_mut().pending = Pend::None;
+        self.sh.borrow_mut().stall_next_write = true;
+        let r = match fut.as_mut().poll(&mut cx) {
+            Poll::Ready(v) => Some(v),
+            Poll::Pending => None,
+        };
+        self.sh.borrow_mut().stall_next_write = false;
+        r
+    }
+
     pub fn push(&self, conn: usize, bytes: &[u8]) {
         self.sh.borrow_mut().conns[conn].inbound.extend(bytes.iter().copied());
     }
